@@ -267,7 +267,7 @@ def accepted_offsets(ctx):
     k = G.one('cctz::FixedOffsetFromName')
     u, f = G.defs[k]
     obs = _OffsetObs()
-    ai = AI(G, obs)
+    ai = AI(G, obs, auto_unroll=True)
     res = ai.analyse(k, St())
     if not res or not any(isinstance(v, Int) and v.hi >= 1 for (v, s) in res):
         raise AnalysisBroken('FixedOffsetFromName could not be analysed')
@@ -507,7 +507,7 @@ def _check_buf(ctx, u, f, plen):
         return
     G = ctx.G
     obs = _BufObs()
-    ai = AI(G, obs)
+    ai = AI(G, obs, auto_unroll=True)
     from ..callgraph import fkey
     res = ai.analyse(fkey(f), St())
     if not res:
